@@ -128,6 +128,10 @@ def extract_type(spec):
     text, dropped = strip_attrs(raw)
     for old, new in spec.get("rewrites", []):
         text = text.replace(old, new)
+    if spec.get("pub_fields", True) and re.match(r"\s*(pub(\([a-z]+\))?\s+)?struct\b", text) and "{" in text:
+        # visibility only: private named fields become pub (Verus treats a struct with private
+        # fields as opaque in contracts)
+        text = re.sub(r"(?m)^(\s+)(?!pub\b)([A-Za-z_][A-Za-z0-9_]*\s*:)", r"\1pub \2", text)
     if spec.get("post"):
         text += "\n" + spec["post"]
     return text, hashlib.sha256(raw.encode()).hexdigest(), dropped
@@ -159,7 +163,7 @@ def render_contract(fn, unit, as_stub):
     if ens:
         lines.append("    ensures")
         for oid, _props, clause in ens:
-            clause_lines[len(lines)] = oid
+            clause_lines[sum(x.count("\n") + 1 for x in lines)] = oid
             lines.append(f"        {clause},")
     if unit.get("no_unwind", False):
         lines.append("    no_unwind")
@@ -198,6 +202,8 @@ def build_file(unit, units_by_id, prelude_text, types_text, machine_text, out_pa
         attr = "#[verifier::external_body]\n"
         parts.append(f"// assumed contract of callee {sid} (proved in its own unit)\n{pre}{attr}{ctext}\n{{ unimplemented!() }}{post}\n")
         stub_notes.append(sid)
+    for frag in unit.get("fragments", []):
+        parts.append(open(os.path.join(VERIF, "verus", frag + ".rs")).read())
     if unit.get("extra"):
         parts.append(unit["extra"])
     ctext, clause_rel = render_contract(fn, unit, False)
